@@ -9,6 +9,8 @@ product spaces at once: the functional's OWN inner product is the inner product 
 import OdlModel.Lemmas.Functionals
 import OdlModel.Lemmas.WeightedSpace
 import OdlModel.Model.Prox
+import OdlModel.Model.FunctionalsLeaves
+import Mathlib.Analysis.SpecialFunctions.Log.Deriv
 import Mathlib.Analysis.InnerProductSpace.Calculus
 import Mathlib.Analysis.InnerProductSpace.Adjoint
 import Mathlib.Analysis.Calculus.Gradient.Basic
@@ -971,3 +973,273 @@ example : LipOn (fun x : ℝ => (Fn.menv .l2sq (fun x => (1 / (1 + 2 * 1) : ℝ)
   C09.menv_lipschitz _ _ _ _ _ _ 1 one_pos (C09.menv_l2sq_prox_firm (E := ℝ) 1 one_pos).2
 
 end menv
+
+/-! ### ROUND 4: leaves outside the expression language (`Model/FunctionalsLeaves.lean`) -/
+open OdlModel.FunctionalsLeaves
+
+namespace OdlModel.C09
+/-- Documented value of one entry of `KullbackLeibler` with prior entry `g`:
+`x − g + xlogy(g, g/x)` (`xlogy(0, ·) = 0`; prior `None` is `g = 1`: `x − 1 − log x`). -/
+noncomputable def klVal1 (g s : ℝ) : ℝ := s - g + g * Real.log (g / s)
+/-- Documented value of one entry of `KullbackLeiblerConvexConj`: `−xlogy(g, 1 − x)`. -/
+noncomputable def klccVal1 (g s : ℝ) : ℝ := -(g * Real.log (1 - s))
+end OdlModel.C09
+open OdlModel.C09
+
+/-- One entry of `KullbackLeibler` (prior entry `g`, any real; `g = 1` is prior `None`): at every
+`x > 0` the EXECUTED gradient entry `klGrad1 g x = (-g)/x + 1` (`KLGradient._call`) is the derivative
+of the documented value entry `x − g + xlogy(g, g/x)`. -/
+theorem C09.kl_entry_deriv (g x : ℝ) (hx : 0 < x) :
+    HasDerivAt (klVal1 g) (klGrad1 g x) x := by
+  unfold klVal1 klGrad1
+  by_cases hg : g = 0
+  · subst hg
+    simp only [zero_mul, add_zero, sub_zero, neg_zero, zero_div, zero_add]
+    exact hasDerivAt_id x
+  · have hx0 : x ≠ 0 := ne_of_gt hx
+    have h1 : HasDerivAt (fun s : ℝ => g / s) (-g / x ^ 2) x := by
+      have := (hasDerivAt_inv hx0).const_mul g
+      simpa [div_eq_mul_inv, neg_mul, mul_neg] using this
+    have h2 := h1.log (div_ne_zero hg hx0)
+    have h3 : HasDerivAt (fun s : ℝ => s - g + g * Real.log (g / s))
+        (1 + g * (-g / x ^ 2 / (g / x))) x := ((hasDerivAt_id' x).sub_const g).add (h2.const_mul g)
+    refine h3.congr_deriv ?_
+    field_simp
+    ring
+
+/-- One entry of `KullbackLeiblerConvexConj`: at every `x < 1` the executed gradient entry
+`klccGrad1 g x = g/(1 − x)` (`KLCCGradient._call`) is the derivative of the documented value entry
+`−xlogy(g, 1 − x)`. -/
+theorem C09.klcc_entry_deriv (g x : ℝ) (hx : x < 1) :
+    HasDerivAt (klccVal1 g) (klccGrad1 g x) x := by
+  unfold klccVal1 klccGrad1
+  have h0 : (1 : ℝ) - x ≠ 0 := by linarith
+  have h1 : HasDerivAt (fun s : ℝ => 1 - s) (-1) x := by
+    simpa using (hasDerivAt_id x).const_sub 1
+  have h2 : HasDerivAt (fun s : ℝ => -(g * Real.log (1 - s))) (-(g * (-1 / (1 - x)))) x :=
+    ((h1.log h0).const_mul g).neg
+  refine h2.congr_deriv ?_
+  field_simp
+
+/-! lifting with an entry-dependent `φ` -/
+/-- `separable_grad` with an entry-dependent `φᵢ` (needed for a non-constant prior) (helper). -/
+theorem C09.separable_grad_idx {n : ℕ} (w : Fin n → ℝ) (φ φ' : Fin n → ℝ → ℝ) (x : Fin n → ℝ)
+    (h : ∀ i, HasDerivAt (φ i) (φ' i (x i)) (x i)) :
+    HasFDerivAt (fun z : Fin n → ℝ => ∑ i, w i * φ i (z i))
+      (∑ i, (w i * φ' i (x i)) • (ContinuousLinearMap.proj i : (Fin n → ℝ) →L[ℝ] ℝ)) x := by
+  have : ∀ i ∈ Finset.univ, HasFDerivAt (fun z : Fin n → ℝ => w i * φ i (z i))
+      ((w i * φ' i (x i)) • (ContinuousLinearMap.proj i : (Fin n → ℝ) →L[ℝ] ℝ)) x := by
+    intro i _
+    have h1 := ((h i).comp_hasFDerivAt x (hasFDerivAt_apply (𝕜 := ℝ) (F' := fun _ : Fin n => ℝ) i x)).const_mul (w i)
+    refine HasFDerivAt.congr_fderiv h1 ?_
+    rw [smul_smul]
+  exact HasFDerivAt.fun_sum this
+
+section klw
+variable {n : ℕ} (w : Fin n → ℝ) [hw : Fact (∀ i, 0 < w i)]
+
+/-- `weighted_separable_gradient` with an entry-dependent `φᵢ` (helper). -/
+theorem C09.weighted_separable_gradient_idx (φ φ' : Fin n → ℝ → ℝ) (x : WSp w)
+    (h : ∀ i, HasDerivAt (φ i) (φ' i (x.val i)) (x.val i)) :
+    HasGradientAt (fun z : WSp w => ∑ i, w i * φ i (z.val i)) (WSp.of fun i => φ' i (x.val i)) x := by
+  have h0 := C09.separable_grad_idx w φ φ' x.val h
+  have h1 : HasFDerivAt (fun z : WSp w => ∑ i, w i * φ i (z.val i))
+      ((∑ i, (w i * φ' i (x.val i)) • (ContinuousLinearMap.proj i : (Fin n → ℝ) →L[ℝ] ℝ)).comp
+        (C09.wEquiv w : WSp w →L[ℝ] (Fin n → ℝ))) x :=
+    HasFDerivAt.comp x (f := fun z : WSp w => (C09.wEquiv w) z) h0 (C09.wEquiv w).hasFDerivAt
+  refine C09.hasGradientAt_of_fderiv h1 ?_
+  intro d
+  rw [WSp.inner_def]
+  simp only [ContinuousLinearMap.comp_apply, ContinuousLinearMap.sum_apply,
+    ContinuousLinearMap.smul_apply, ContinuousLinearMap.proj_apply, smul_eq_mul]
+  rfl
+
+/-- Reading back the list computed by `zipWith` on `List.ofFn` inputs (helper). -/
+theorem C09.ofL_zipWith_ofFn (f : ℝ → ℝ → ℝ) (g x : Fin n → ℝ) :
+    (ofL (List.zipWith f (List.ofFn g) (List.ofFn x)) : Fin n → ℝ) = fun i => f (g i) (x i) := by
+  rw [zipWith_ofFn]
+  funext i
+  simp [ofL, List.getD_eq_getElem?_getD]
+
+/-- `List.all` on `List.ofFn` gives the predicate at every index (helper). -/
+theorem C09.all_ofFn {p : ℝ → Bool} (x : Fin n → ℝ) (h : (List.ofFn x).all p = true) (i : Fin n) :
+    p (x i) = true := by
+  rw [List.all_eq_true] at h
+  exact h (x i) ((List.mem_ofFn' x (x i)).mpr ⟨i, rfl⟩)
+
+/-- **`KullbackLeibler.gradient` is the gradient of the documented KL value on every weighted
+space** (`rn`, weighted `rn`, `uniform_discr`: all `n`, all weights `w > 0`, every prior `g`; prior
+`None` is `g ≡ 1`): at every point where the EXECUTED domain test `klDom` holds (all entries
+positive), the EXECUTED list gradient `klGrad g x` (compared with `f.gradient(x)` on the stream
+`leaves/kl`) is the gradient, w.r.t. the weighted inner product, of
+`z ↦ Σ wᵢ (zᵢ − gᵢ + xlogy(gᵢ, gᵢ/zᵢ)) = (x − g + xlogy(g, g/x)).inner(one)`.
+This DISCHARGES the leaf hypothesis that `grad_sound` would need for a KL leaf; KL is not a
+constructor of `Fn` (shared with C08), so trees over KL leaves are still covered by the abstract
+`grad_sound` with this theorem supplying the leaf. The value itself contains `log` and is not
+executed (compared with the real `_call` by finite differences only). -/
+theorem C09.kl_grad_sound_weighted (g : Fin n → ℝ) (x : WSp w)
+    (hx : klDom (List.ofFn x.val) = true) :
+    HasGradientAt (fun z : WSp w => ∑ i, w i * klVal1 (g i) (z.val i))
+      (WSp.of (ofL (klGrad (List.ofFn g) (List.ofFn x.val)))) x := by
+  have hpos : ∀ i, 0 < x.val i := fun i => by
+    have := C09.all_ofFn (p := fun t => decide (0 < t)) x.val hx i
+    simpa using this
+  unfold klGrad
+  rw [C09.ofL_zipWith_ofFn]
+  exact C09.weighted_separable_gradient_idx w (fun i => klVal1 (g i)) (fun i => klGrad1 (g i)) x
+    (fun i => C09.kl_entry_deriv (g i) _ (hpos i))
+
+/-- **`KullbackLeiblerConvexConj.gradient` is the gradient of its documented value** on every
+weighted space: where the executed `klccDom` holds (all entries `< 1`), the executed `klccGrad g x`
+(`g/(1 − x)`, stream `leaves/klcc`) is the gradient of `z ↦ Σ wᵢ·(−xlogy(gᵢ, 1 − zᵢ))`. -/
+theorem C09.klcc_grad_sound_weighted (g : Fin n → ℝ) (x : WSp w)
+    (hx : klccDom (List.ofFn x.val) = true) :
+    HasGradientAt (fun z : WSp w => ∑ i, w i * klccVal1 (g i) (z.val i))
+      (WSp.of (ofL (klccGrad (List.ofFn g) (List.ofFn x.val)))) x := by
+  have hlt : ∀ i, x.val i < 1 := fun i => by
+    have := C09.all_ofFn (p := fun t => decide (t < 1)) x.val hx i
+    simpa using this
+  unfold klccGrad
+  rw [C09.ofL_zipWith_ofFn]
+  exact C09.weighted_separable_gradient_idx w (fun i => klccVal1 (g i)) (fun i => klccGrad1 (g i)) x
+    (fun i => C09.klcc_entry_deriv (g i) _ (hlt i))
+end klw
+
+/-- Non-vacuity: two cells of volume 1/4, prior `(1, 3/2)`, `x = (1/2, 2)`. -/
+example : HasGradientAt (fun z : WSp ![1 / 4, 1 / 4] => ∑ i, (![1 / 4, 1 / 4] : Fin 2 → ℝ) i * klVal1 ((![1, 3 / 2] : Fin 2 → ℝ) i) (z.val i))
+    (WSp.of (ofL (klGrad (List.ofFn (![1, 3 / 2] : Fin 2 → ℝ)) (List.ofFn (WSp.of ![1 / 2, 2] : WSp ![1 / 4, 1 / 4]).val))))
+    (WSp.of ![1 / 2, 2]) := by
+  apply C09.kl_grad_sound_weighted
+  simp [klDom, WSp.val_of]
+
+section box
+variable {K : Type} [Field K] [LinearOrder K] [IsStrictOrderedRing K]
+
+namespace OdlModel.C09
+/-- The documented condition of `IndicatorBox`: `lower ≤ x ≤ upper` at this entry. -/
+def InBox (e : BoxEntry K) : Prop := (∀ a, e.lo = some a → a ≤ e.x) ∧ (∀ b, e.hi = some b → e.x ≤ b)
+/-- The bounds of the entry are consistent (`lower ≤ upper` where both are given). -/
+def BoundsOK (e : BoxEntry K) : Prop := ∀ a b, e.lo = some a → e.hi = some b → a ≤ b
+end OdlModel.C09
+open OdlModel.C09
+
+/-- One entry of `ProxOpBoxConstraint` (`minimum(maximum(x, lower), upper)`, C07's `boxCode`)
+leaves `x` unchanged iff `lower ≤ x ≤ upper` — given consistent bounds. -/
+theorem C09.box_entry_fixed_iff (e : BoxEntry K) (h : BoundsOK e) :
+    OdlModel.Prox.boxCode e.lo e.hi e.x = e.x ↔ InBox e := by
+  obtain ⟨w, lo, hi, x⟩ := e
+  unfold InBox BoundsOK at *
+  cases lo <;> cases hi <;>
+    simp only [OdlModel.Prox.boxCode, OdlModel.Prox.maxK, OdlModel.Prox.minK, reduceCtorEq,
+      Option.some.injEq, forall_eq', IsEmpty.forall_iff, implies_true, true_and, and_true] at h ⊢
+  all_goals (split_ifs <;> grind)
+
+/-- The weighted squared distance to the projection is non-negative (helper). -/
+theorem C09.boxDist2_nonneg (es : List (BoxEntry K)) (hw : ∀ e ∈ es, 0 < e.w) : 0 ≤ boxDist2 es := by
+  induction es with
+  | nil => simp [boxDist2]
+  | cons e r ih =>
+      have h1 := ih (fun a ha => hw a (List.mem_cons_of_mem _ ha))
+      have h2 := (hw e (by simp)).le
+      simp only [boxDist2]
+      have : 0 ≤ e.w * (e.x - OdlModel.Prox.boxCode e.lo e.hi e.x) * (e.x - OdlModel.Prox.boxCode e.lo e.hi e.x) := by
+        rw [mul_assoc]; exact mul_nonneg h2 (mul_self_nonneg _)
+      linarith
+
+/-- **`IndicatorBox._call` / `IndicatorNonnegativity._call` compute the documented indicator.**
+The code does not test `lower ≤ x ≤ upper`; it projects with `proximal_box_constraint` and returns
+`inf if x.dist(proj) > 0 else 0` in the space's OWN distance. For every length, all weights `> 0`
+(the theorem is false for a zero weight) and consistent bounds (each bound absent, or
+`lowerᵢ ≤ upperᵢ`), the executed `boxIsInf` (stream `leaves/box`) is `false` — the value is 0 —
+iff every entry satisfies the documented condition. -/
+theorem C09.box_value_iff (es : List (BoxEntry K)) (hw : ∀ e ∈ es, 0 < e.w)
+    (hb : ∀ e ∈ es, BoundsOK e) : boxIsInf es = false ↔ ∀ e ∈ es, InBox e := by
+  unfold boxIsInf
+  rw [decide_eq_false_iff_not, not_lt]
+  induction es with
+  | nil => simp [boxDist2]
+  | cons e r ih =>
+      have hw' : ∀ a ∈ r, 0 < a.w := fun a ha => hw a (List.mem_cons_of_mem _ ha)
+      have ih' := ih hw' (fun a ha => hb a (List.mem_cons_of_mem _ ha))
+      have hr := C09.boxDist2_nonneg r hw'
+      have hwe := hw e (by simp)
+      have hfix := C09.box_entry_fixed_iff e (hb e (by simp))
+      simp only [boxDist2, List.forall_mem_cons]
+      set d := e.x - OdlModel.Prox.boxCode e.lo e.hi e.x with hd
+      have hdd : 0 ≤ e.w * d * d := by rw [mul_assoc]; exact mul_nonneg hwe.le (mul_self_nonneg _)
+      constructor
+      · intro h
+        have h0 : e.w * d * d = 0 := by linarith
+        have hd0 : d = 0 := by
+          rw [mul_assoc] at h0
+          rcases mul_eq_zero.mp h0 with h | h
+          · exact absurd h (ne_of_gt hwe)
+          · exact mul_self_eq_zero.mp h
+        refine ⟨hfix.mp ?_, ih'.mp (by linarith)⟩
+        rw [hd] at hd0; linarith
+      · rintro ⟨h1, h2⟩
+        have := hfix.mpr h1
+        have hd0 : d = 0 := by rw [hd, this]; ring
+        rw [hd0]
+        have := ih'.mpr h2
+        simp; linarith
+
+/-- Sensitivity, on the model: with INVERTED element bounds (`lower = 2 > upper = 1`, which
+`proximal_box_constraint` rejects only when both are field scalars) the coded value at `x = upper`
+is 0 although no point satisfies `lower ≤ x ≤ upper`: the hypothesis `BoundsOK` of `box_value_iff`
+is needed. (The correspondence stream probes this input too: code and model both return 0.) -/
+theorem C09.box_inverted_bounds_fails :
+    boxIsInf [(⟨1, some 2, some 1, 1⟩ : BoxEntry ℚ)] = false ∧ ¬ InBox (⟨1, some 2, some 1, 1⟩ : BoxEntry ℚ) := by
+  constructor
+  · simp [boxIsInf, boxDist2, OdlModel.Prox.boxCode, OdlModel.Prox.maxK, OdlModel.Prox.minK]
+  · intro h
+    have := h.1 2 rfl
+    norm_num at this
+
+/-- Non-vacuity: `IndicatorBox(uniform_discr(0,1,2)·, lower=(0, None), upper=(1, None))` at `(1/2, −7)`. -/
+example : boxIsInf (mkBox [(1/4 : ℚ), 1/4] [some 0, none] [some 1, none] [1/2, -7]) = false := by
+  rw [C09.box_value_iff]
+  · intro e he
+    simp [mkBox] at he
+    rcases he with rfl | rfl <;> constructor <;> intro a ha <;> simp at ha <;> subst ha <;> norm_num
+  · intro e he; simp [mkBox] at he; rcases he with rfl | rfl <;> norm_num
+  · intro e he; simp [mkBox] at he
+    rcases he with rfl | rfl <;> intro a b ha hb <;> simp at ha hb
+    subst ha; subst hb; norm_num
+end box
+
+section sep
+variable {K : Type} [Field K] [LinearOrder K]
+
+/-- **`SeparableSum.derivative(x)(d)` is the sum of the parts' derivatives** (any number of parts,
+any sizes, any ordered field): with the product space's inner product (sum of the parts' own
+weighted inner products) and `gradient = DiagonalOperator(*gradients)`, the executed
+`sepDeriv` (`d.inner(gradient(x))` on the flat concatenation, stream `leaves/sepsum`) equals
+`Σᵢ fᵢ.derivative(xᵢ)(dᵢ)`, each in its OWN space — provided every part's gradient and direction
+have the length of the part (true for every functional whose gradient maps the space to itself).
+Together with `grad_sound_weighted` for each part this makes `derivative(x)(d)` of a separable
+sum the sum of the Fréchet derivatives of the parts' values. `sepValue = Σ fᵢ(xᵢ)` is by
+construction. -/
+theorem C09.sepsum_deriv_split (ps : List (SepPart K))
+    (h : ∀ p ∈ ps, (p.f.grad (listOps p.w) p.x).length = p.x.length ∧ p.d.length = p.x.length) :
+    sepDeriv ps = (ps.map fun p => p.f.deriv (listOps p.w) p.x p.d).sum := by
+  unfold sepDeriv
+  induction ps with
+  | nil => simp [sepInner]
+  | cons p r ih =>
+      have hp := h p (by simp)
+      have ih' := ih (fun a ha => h a (List.mem_cons_of_mem _ ha))
+      simp only [sepInner, sepDir, sepGrad, List.map_cons, List.sum_cons]
+      rw [List.take_left' hp.2, List.take_left' hp.1, List.drop_left' hp.2, List.drop_left' hp.1, ih']
+      rfl
+
+/-- Non-vacuity: `SeparableSum(L2NormSquared(rn(2)), 3·L1Norm(rn(1, weighting=1/2)))` at
+`x = ((1, 2), (−2))`, `d = ((1, 0), (1))`: `1/2 = 2 + (−3/2)`. -/
+example : sepDeriv [(⟨[1, 1], .l2sq, [1, 2], [1, 0]⟩ : SepPart ℚ), ⟨[1 / 2], .lscal 3 (.coord .l1), [-2], [1]⟩]
+    = ([(⟨[1, 1], .l2sq, [1, 2], [1, 0]⟩ : SepPart ℚ), ⟨[1 / 2], .lscal 3 (.coord .l1), [-2], [1]⟩].map
+        fun p => p.f.deriv (listOps p.w) p.x p.d).sum := by
+  apply C09.sepsum_deriv_split
+  intro p hp
+  simp at hp
+  rcases hp with rfl | rfl <;> simp [Fn.grad, listOps]
+end sep
